@@ -28,6 +28,11 @@ class Int(Shape):
     def __init__(self, lo=None, hi=None):
         self.lo, self.hi = lo, hi
 
+    def sample(self, rng):
+        lo = self.lo if self.lo is not None else -(10 ** rng.choice([1, 2, 4, 6]))
+        hi = self.hi if self.hi is not None else 10 ** rng.choice([1, 2, 4, 6])
+        return rng.randint(lo, hi)
+
     def fresh(self, ctx, name):
         t = ctx.fresh_int(name)
         if self.lo is not None:
@@ -38,6 +43,9 @@ class Int(Shape):
 
 
 class Bool(Shape):
+    def sample(self, rng):
+        return rng.random() < 0.5
+
     def fresh(self, ctx, name):
         from .values import SBool
         return SBool(ctx.fresh_bool(name))
@@ -47,6 +55,9 @@ class Enum(Shape):
     def __init__(self, cls, only=None):
         self.cls = cls
         self.only = only
+
+    def sample(self, rng):
+        return rng.choice(list(self.only or self.cls))
 
     def fresh(self, ctx, name):
         t = ctx.fresh_int(name)
@@ -62,6 +73,9 @@ class Opt(Shape):
     def __init__(self, inner):
         self.inner = inner
 
+    def sample(self, rng):
+        return None if rng.random() < 0.3 else self.inner.sample(rng)
+
     def fresh(self, ctx, name):
         isn = ctx.fresh_bool(name + '_isnone')
         return SOpt(isn, self.inner.fresh(ctx, name))
@@ -70,6 +84,9 @@ class Opt(Shape):
 class Const(Shape):
     def __init__(self, v):
         self.v = v
+
+    def sample(self, rng):
+        return self.v
 
     def fresh(self, ctx, name):
         return self.v
@@ -81,6 +98,9 @@ class OneOf(Shape):
     def __init__(self, values):
         self.values = list(values)
 
+    def sample(self, rng):
+        return rng.choice(self.values)
+
     def fresh(self, ctx, name):
         k = ctx.fresh_int(name + '_choice')
         ctx.assume_type(z3.And(k >= 0, k < len(self.values)))
@@ -89,6 +109,9 @@ class OneOf(Shape):
 
 
 class Card(Shape):
+    def sample(self, rng):
+        return V.concrete_card(rng.randrange(52))
+
     def fresh(self, ctx, name):
         r = ctx.fresh_int(name + '_rank')
         s = ctx.fresh_int(name + '_suit')
@@ -101,6 +124,11 @@ def _suit_cls():
 
 
 class CardSet(Shape):
+    def sample(self, rng):
+        k = rng.choice([0, 1, 5, 13, 13, 13, 26, 52])
+        picks = set(rng.sample(range(52), k))
+        return SCardSet([i in picks for i in range(52)])
+
     def fresh(self, ctx, name):
         return SCardSet([mk_bool(ctx.fresh_bool(f'{name}_{i}')) for i in range(52)])
 
@@ -160,6 +188,14 @@ class Seq(Shape):
         self.elem = elem
         self.maxlen = maxlen
 
+    def sample(self, rng):
+        n = rng.randint(0, min(self.maxlen or 12, 12))
+        if isinstance(self.elem, EnumElem):
+            return SList([rng.choice(list(self.elem.cls)) for _ in range(n)])
+        if isinstance(self.elem, CardElem):
+            return SList([V.concrete_card(rng.randrange(52)) for _ in range(n)])
+        return SList([rng.randint(-5, 5) for _ in range(n)])
+
     def fresh(self, ctx, name):
         n = ctx.fresh_int(name + '_len')
         ctx.assume_type(n >= 0)
@@ -178,6 +214,11 @@ class Seq(Shape):
 class Vec(Shape):
     def __init__(self, n, lo=None, hi=None):
         self.n, self.lo, self.hi = n, lo, hi
+
+    def sample(self, rng):
+        lo = self.lo if self.lo is not None else -3
+        hi = self.hi if self.hi is not None else 3
+        return SVec([rng.randint(lo, hi) for _ in range(self.n)])
 
     def _slots(self, ctx, name):
         out = []
@@ -201,6 +242,9 @@ class Tuple(Shape):
     def __init__(self, *items):
         self.items = items
 
+    def sample(self, rng):
+        return tuple(s.sample(rng) for s in self.items)
+
     def fresh(self, ctx, name):
         return tuple(s.fresh(ctx, f'{name}_{i}') for i, s in enumerate(self.items))
 
@@ -208,6 +252,9 @@ class Tuple(Shape):
 class List(Shape):
     def __init__(self, *items):
         self.items = items
+
+    def sample(self, rng):
+        return SList([s.sample(rng) for s in self.items])
 
     def fresh(self, ctx, name):
         return SList([s.fresh(ctx, f'{name}_{i}') for i, s in enumerate(self.items)])
@@ -219,6 +266,9 @@ class List(Shape):
 class Dict(Shape):
     def __init__(self, d):
         self.d = d
+
+    def sample(self, rng):
+        return SDict({k: s.sample(rng) for k, s in self.d.items()})
 
     @staticmethod
     def _kn(k):
@@ -242,6 +292,10 @@ class Obj(Shape):
         self.fields = fields
         self.frozen = frozen
 
+    def sample(self, rng):
+        return SObj(self.cls, {k: s.sample(rng) for k, s in self.fields.items()},
+                    frozen=self.frozen)
+
     def fresh(self, ctx, name):
         return SObj(self.cls, {k: s.fresh(ctx, f'{name}.{k}') for k, s in self.fields.items()},
                     frozen=self.frozen)
@@ -263,6 +317,9 @@ class Ref(Shape):
 
     def _s(self):
         return REGISTRY.classes_by_name[self.q].shape
+
+    def sample(self, rng):
+        return self._s().sample(rng)
 
     def fresh(self, ctx, name):
         return self._s().fresh(ctx, name)
